@@ -83,8 +83,9 @@ def payload_ty(self_ty, variant):
 
 
 class Flattener:
-    def __init__(self, facts, keep=(), expand=True, max_depth=8, max_blocks=20000, thread=True):
+    def __init__(self, facts, keep=(), expand=True, max_depth=8, max_blocks=20000, thread=True, loops=True):
         self.facts = facts
+        self.loops = loops          # `iter.try_for_each(f)` / `iter.for_each(f)` written out as the loop they are
         self.thread = thread
         self.keep = keep            # callable(path) -> bool, or a container of paths
         self.expand = expand
@@ -377,6 +378,9 @@ class _State:
                 continue
             c = t["callee"]
             path = c.get("resolved") or c["def"]
+            if self.fl.loops and c.get("krate") in ("core", "std", "alloc") and c["def"] in ("std::iter::Iterator::try_for_each", "std::iter::Iterator::for_each") \
+                    and self._expand_iter_loop(i, b, t, c, depth, stack):
+                continue
             if self.fl.expand and c.get("krate") in ("core", "std", "alloc") and self._expand(i, b, t, c, depth, stack):
                 continue
             callee = self.facts.fn(path)
@@ -708,6 +712,76 @@ class _State:
             switch_on_x(bp, bn)
             return True
         return False
+
+    def _expand_iter_loop(self, i, b, t, c, depth, stack):
+        """`iter.try_for_each(f)` is `loop { match iter.next() { None => break Ok(()), Some(x) => f(x)? } }` and
+        `iter.for_each(f)` the same without the `?`: written out, with the closure body in place of the call."""
+        ops = t["ops"]
+        line = t.get("line", 0)
+        if len(ops) != 2 or ops[0].get("k") not in ("move", "copy") or ops[0]["pl"]["p"]:
+            return False
+        cl = self.closure_of(ops[1])
+        if cl is None:
+            return False
+        f = self.facts.fn(cl[0])
+        if f is None or f["kind"] != "closure" or cl[0] in stack or f["arg_count"] != 2:
+            return False
+        tryf = c["def"].endswith("try_for_each")
+        args = c.get("args") or []
+        self_ty = c.get("self_ty") or (args[0] if args else "?")
+        rty = args[2] if len(args) > 2 else "()"
+        if tryf and rty.startswith("std::result::Result<"):
+            radt = RESULT
+        elif tryf and rty.startswith("std::option::Option<"):
+            radt = OPTION
+        elif tryf:
+            return False
+        item_ty = f["locals"][2]["ty"]
+        dest, target = t["dest"], t["t"]
+        it_op = ops[0]
+        if tryf:
+            itref = it_op        # `&mut self`
+        else:
+            # for_each takes the iterator by value
+            loc = self.new_local("&mut " + self_ty)
+            b["stmts"] = b["stmts"] + [_assign(_pl(loc), {"k": "ref", "mut": True, "fake": False, "pl": copy.deepcopy(it_op["pl"])}, line)]
+            itref = _cp(loc)
+        item = self.new_local("std::option::Option<%s>" % item_ty)
+        d = self.new_local("isize")
+        r = self.new_local(rty if tryf else "()")
+        dead = self.new_block([], {"k": "unreachable", "line": line, "exp": False}, i)
+        callee = {"def": "std::iter::Iterator::next", "name": "next", "krate": "core", "args": [self_ty], "self_ty": self_ty, "trait": "std::iter::Iterator",
+                  "resolved": "<%s as std::iter::Iterator>::next" % self_ty, "resolved_args": [], "synth": "iter_loop"}
+        sw = self.new_block([_assign(_pl(d), {"k": "discr", "pl": _pl(item), "adt": OPTION}, line)], None, i)
+        head = self.new_block([], {"k": "call", "callee": callee, "fn_op": {"k": "const", "ty": "fn", "val": None, "uneval": None, "fn": callee},
+                                   "ops": [{"k": "copy", "pl": copy.deepcopy(itref["pl"])}], "dest": _pl(item), "t": sw, "cline": line, "cexp": False, "line": line, "exp": False,
+                                   "expanded": "iter_loop"}, i)
+        if tryf:
+            if radt == RESULT:
+                fin = _adt(RESULT, "Ok", 0, [{"k": "const", "ty": "()", "val": None, "uneval": None, "fn": None}])
+            else:
+                fin = _adt(OPTION, "Some", 1, [{"k": "const", "ty": "()", "val": None, "uneval": None, "fn": None}])
+            done = self.new_block([_assign(copy.deepcopy(dest), fin, line)], _goto(target, line), i)
+            V = VARIANTS[radt]
+            pos, neg = ("Ok", "Err") if radt == RESULT else ("Some", "None")
+            if radt == RESULT:
+                brk_rv = _adt(RESULT, "Err", 1, [{"k": "move", "pl": {"l": r, "p": _dc("Err", 1, ty=payload_ty(rty, "Err"), adt=RESULT)}}])
+            else:
+                brk_rv = _adt(OPTION, "None", 0, [])
+            brk = self.new_block([_assign(copy.deepcopy(dest), brk_rv, line)], _goto(target, line), i)
+            d2 = self.new_local("isize")
+            chk = self.new_block([_assign(_pl(d2), {"k": "discr", "pl": _pl(r), "adt": radt}, line)],
+                                 {"k": "switch", "op": _mv(d2), "ty": "isize", "targets": sorted([[V[pos], head], [V[neg], brk]]), "otherwise": dead, "line": line, "exp": False,
+                                  "expanded": "iter_loop"}, i)
+        else:
+            done = self.new_block([_assign(copy.deepcopy(dest), _use({"k": "const", "ty": "()", "val": None, "uneval": None, "fn": None}), line)], _goto(target, line), i)
+            chk = head
+        body = self.new_block([], _goto(chk, line), i)
+        self._splice_closure(body, self.blocks[body], f, cl[1], [{"k": "move", "pl": {"l": item, "p": _dc("Some", 1, ty=item_ty, adt=OPTION)}}], _pl(r), chk, depth, stack, line)
+        self.blocks[sw]["term"] = {"k": "switch", "op": _mv(d), "ty": "isize", "targets": [[0, done], [1, body]], "otherwise": dead, "line": line, "exp": False, "expanded": "iter_loop"}
+        b["term"] = _goto(head, line)
+        b["term"]["expanded"] = c["def"]
+        return True
 
     def _expand_poll_map(self, i, b, t, c, depth, stack):
         """`poll.map(f)`: Ready(v) => Ready(f(v)), Pending => Pending."""
